@@ -23,9 +23,9 @@ for pid in sorted(props):
     else:
         na.append({"property_id": pid, "reason": NA_REASON.get(pid, "contracts designed (DESIGN §6) but not built yet — unclaimed")})
 # hook commits: every commit that touches a guarded contract file (verif: commits and the driver's end-of-round snapshot)
-hooks = subprocess.run(["git","-C","/repo","log","--format=%H","--","verif_contracts.go","ds/list/verif_contracts.go","ds/set/verif_contracts.go"],capture_output=True,text=True).stdout.split()
+hooks = subprocess.run(["git","-C","/repo","log","--format=%H","--","verif_contracts.go","ds/list/verif_contracts.go","ds/set/verif_contracts.go","ds/zset/verif_contracts.go","verif_scenarios.go"],capture_output=True,text=True).stdout.split()
 m = {"version": 1, "setup_cmd": "./setup.sh",
- "hooks": {"guard": "verif", "enable": "-tags verif (comment-only contract files verif_contracts*.go; read by govc, never compiled into the library)",
+ "hooks": {"guard": "verif", "enable": "-tags verif (comment-only contract files verif_contracts.go in the four packages plus verif_scenarios.go, client functions over the public API; read by govc, never compiled into the library)",
            "baseline_off_cmd": "cd /repo && GOFLAGS=-mod=mod GOPROXY=off GOSUMDB=off go test -vet=off -count=1 ./...",
            "source_commits": hooks, "add_only": True},
  "engines": [{"name": "govc", "path": "engine", "serves_properties": sorted(CLAIMS),
